@@ -145,19 +145,11 @@ def done_rule(ctx: Ctx, rid: str) -> None:
     # is_empty: every latch but the last holds an EmptyInstruction
     f = m.method("Pipeline", "is_empty")
     fl = normal_flow(m, f)
-    ok = False
-    if len(fl.returns) == 1 and fl.canon_cond(fl.returns[0].cond) == "TRUE":
-        v = fl.returns[0].value
-        if isinstance(v, ast.Call) and isinstance(v.func, ast.Name) and v.func.id == "all" and len(v.args) == 1 \
-                and isinstance(v.args[0], (ast.GeneratorExp, ast.ListComp)) and len(v.args[0].generators) == 1 and not v.args[0].generators[0].ifs:
-            g = v.args[0].generators[0]
-            body = fl.canon(v.args[0])
-            elt_ok = any(body.startswith(f"{k}({e} for _c0 in ") for k in ("GeneratorExp", "ListComp")
-                         for e in ("Eq(EmptyInstruction, type(_c0.instruction))", "isinstance(_c0.instruction, EmptyInstruction)"))
-            # all latches but the last one (which feeds no stage)
-            it_ok = fl.canon(g.iter) in ("P0.pipeline_registers[:USub(1)]", "P0.pipeline_registers[:Sub(P0.num_stages, 1)]",
-                                         "P0.pipeline_registers[:Sub(len(P0.pipeline_registers), 1)]")
-            ok = elt_ok and it_ok
+    elts = ("Eq(EmptyInstruction, type(_c0.instruction))", "isinstance(_c0.instruction, EmptyInstruction)")
+    # all latches but the last one (which feeds no stage)
+    its = ("P0.pipeline_registers[:USub(1)]", "P0.pipeline_registers[:Sub(P0.num_stages, 1)]", "P0.pipeline_registers[:Sub(len(P0.pipeline_registers), 1)]")
+    ok = len(fl.returns) == 1 and fl.canon_cond(fl.returns[0].cond) == "TRUE" and \
+        fl.canon(fl.returns[0].value) in {f"all({e} for _c0 in {i})" for e in elts for i in its}
     r.check(ok, "Pipeline.is_empty", f.loc(), "Pipeline.is_empty no longer tests all latches but the last for EmptyInstruction "
             f"(recovered: {[fl.show(x.value) for x in fl.returns]})")
     f = m.method("ToySimulation", "is_done")
